@@ -85,6 +85,10 @@ def check_c15(tier):
                      "tag": "objsm-trace", "event": e})
     if summary["events"] != len(events) or summary["accepted"] + len(verdicts) != len(events):
         raise RuntimeError("trace validation bookkeeping mismatch")
+    # the Set action on symbolic vectors (the SymPy classes have their own setters)
+    srecs, scalls = objsm.sympy_setters()
+    recs += srecs
+    calls += scalls
     v = common.Verdicts("C15")
     v.extend(recs)
     nviol, nknown = v.finish()
@@ -93,7 +97,7 @@ def check_c15(tier):
     cov = {"states": states + sst["distinct"] + tst["distinct"], "transitions": transitions + sst["generated"] + tst["generated"],
            "traces_validated_against_impl": nhist + len({e["tid"] for e in events}),
            "samples": samples + [events[0]],
-           "histories_replayed": nhist, "history_steps": nsteps, "implementation_calls": calls,
+           "symbolic_setter_assignments": scalls, "histories_replayed": nhist, "history_steps": nsteps, "implementation_calls": calls,
            "simulated_histories": len(shist), "simulation_depth": sim[0],
            "recorded_trace_events": len(events), "recorded_trace_events_accepted_by_TLC": summary["accepted"],
            "tlc_properties": PROPS,
